@@ -38,10 +38,11 @@ class C07Learner:
 class C07Evaluator:
     """evaluate() yields the rows generated for the (environment, learner) pair it is given."""
 
-    def __init__(self, idx, params, rows_by_pair):
+    def __init__(self, idx, params, rows_by_pair, stamp=None):
         self.idx = idx
         self._params = params
         self._rows = rows_by_pair       # {(env idx, learner idx): [row, ...]}
+        self._stamp = stamp             # when given every yielded row also says in which run it was produced
         self.calls = []
 
     @property
@@ -53,4 +54,6 @@ class C07Evaluator:
         assert n == 2
         self.calls.append((environment.idx, learner.idx))
         for row in self._rows[(environment.idx, learner.idx)]:
-            yield deepcopy(row)
+            row = deepcopy(row)
+            if self._stamp is not None: row["run"] = self._stamp
+            yield row
